@@ -122,8 +122,12 @@ func (f *Metrics) GlyphList() []string {
 }
 
 func (f *Metrics) FontBBoxPDF() (bbox rect.Rect) {
-	for _, g := range f.Glyphs {
-		bbox.Extend(g.BBox)
+	// Visit the glyphs in a fixed order: when a glyph box contains NaN, the
+	// result of Extend depends on the order in which the boxes are added.
+	names := maps.Keys(f.Glyphs)
+	sort.Strings(names)
+	for _, name := range names {
+		bbox.Extend(f.Glyphs[name].BBox)
 	}
 	return bbox
 }
